@@ -1,7 +1,7 @@
 (** A whole simple SELECT: reference semantics (Spec/PgScope.describe) against
     sqlc's outputColumns. *)
 From Coq Require Import Lia.
-From Verif Require Import Model.Compile Spec.PgScope Proofs.ColumnsFacts Proofs.TypeFlowFacts Proofs.ScopeRefine Proofs.CompileFacts2.
+From Verif Require Import Model.Compile Spec.PgScope Proofs.ColumnsFacts Proofs.TypeFlowFacts Proofs.ScopeRefine Proofs.ScopeRefineT Proofs.CompileFacts2.
 Open Scope string_scope.
 Open Scope list_scope.
 
@@ -68,18 +68,18 @@ Fixpoint model_scope (e : env) (rvs : list node) : result (list qtable) :=
 
 Lemma scopes_refine e rvs :
   match spec_scope (env_cat e) rvs, model_scope e rvs with
-  | POk sc, Ok tables => scope_rel sc tables /\ map si_name sc = map visible_name rvs
+  | POk sc, Ok tables => scope_rel_t sc tables /\ map si_name sc = map visible_name rvs
   | PErr _, Err _ => True
   | _, _ => False
   end.
 Proof.
   induction rvs as [|rv r IH]; cbn [spec_scope model_scope]; [split; [constructor|reflexivity]|].
-  pose proof (base_relation_refines e rv) as Hb.
+  pose proof (base_relation_refines_t e rv) as Hb.
   destruct (pg_relation (env_cat e) [] rv) as [cols|e1]; destruct (qc_get_table e [] (table_of_rangevar rv)) as [t|m|m] eqn:Eq;
     try contradiction; cbn [pbind bind]; [|exact I].
   destruct (spec_scope (env_cat e) r) as [sc|e2]; destruct (model_scope e r) as [tables|m|m]; try contradiction; cbn [pbind bind]; [|exact I].
   destruct IH as [Hrel Hnames]. split; [|cbn [map si_name]; f_equal; exact Hnames].
-  constructor; [|exact Hrel]. unfold item_rel. cbn [si_name si_cols]. unfold visible_name.
+  constructor; [|exact Hrel]. unfold item_rel_t. cbn [si_name si_cols]. unfold visible_name.
   assert (Hn : tn_name (qt_rel t) = str_of "Relname" rv).
   { unfold qc_get_table in Eq. cbn [assoc] in Eq. destruct (cat_get_table (env_cat e) (table_of_rangevar rv)); [|discriminate].
     inversion Eq; subst. reflexivity. }
@@ -121,9 +121,9 @@ Section SimpleSelect.
   Hypothesis Hshape : forall sc, spec_scope (env_cat e) rvs = POk sc ->
     Forall (fun it => NoDup (map sc_name (si_cols it))) sc /\ Forall (simple_target sc) targets.
 
-  Theorem simple_select_refines f g :
+  Theorem simple_select_refines_t f g :
     match describe (env_cat e) true true (S (S f)) [] [] stmt, output_columns (S g) e [] stmt with
-    | POk row, Ok cols => map sc_name row = map qc_name cols
+    | POk row, Ok cols => Forall2 col_rel row cols
     | PErr _, Err _ => True
     | _, _ => False
     end.
@@ -180,12 +180,35 @@ Section SimpleSelect.
     replace (Nat.eqb (List.length targets) 0) with false by (rewrite Et; reflexivity).
     rewrite Bool.andb_false_r. cbn [andb].
     destruct (Hshape sc eq_refl) as [Hcols Hall].
-    pose proof (level_refines e sc tables targets Hrel ltac:(rewrite Hnames; exact Hnd) Hcols Hall) as Hlev.
+    pose proof (level_refines_t e sc tables targets Hrel ltac:(rewrite Hnames; exact Hnd) Hcols Hall) as Hlev.
     pose proof (check_refs_row sc targets Hall) as Hchk.
     destruct (check_refs [sc] (map (kid "Val") targets)) as [[]|e2]; cbn [pbind].
     - exact Hlev.
     - destruct Hchk as [e0 He0]. rewrite He0 in Hlev.
       destruct (targets_columns e tables targets); try contradiction; exact I.
+  Qed.
+
+  (** names only *)
+  Theorem simple_select_refines f g :
+    match describe (env_cat e) true true (S (S f)) [] [] stmt, output_columns (S g) e [] stmt with
+    | POk row, Ok cols => map sc_name row = map qc_name cols
+    | PErr _, Err _ => True
+    | _, _ => False
+    end.
+  Proof.
+    pose proof (simple_select_refines_t f g) as H.
+    destruct (describe (env_cat e) true true (S (S f)) [] [] stmt); destruct (output_columns (S g) e [] stmt); auto.
+    apply Forall2_names, H.
+  Qed.
+
+  (** acceptance only (C10) *)
+  Theorem simple_select_decision f g :
+    (exists row, describe (env_cat e) true true (S (S f)) [] [] stmt = POk row)
+    <-> (exists cols, output_columns (S g) e [] stmt = Ok cols).
+  Proof.
+    pose proof (simple_select_refines_t f g) as H.
+    destruct (describe (env_cat e) true true (S (S f)) [] [] stmt) as [row|e1]; destruct (output_columns (S g) e [] stmt) as [cols|m|m];
+      try contradiction; split; intros [x Hx]; try discriminate; eauto.
   Qed.
 End SimpleSelect.
 
